@@ -123,3 +123,6 @@ def nontrivial(line):
 
 def classify(line, what):
     return "c11-" + line.split()[2].lower()
+
+
+norm_model = norm_impl
